@@ -626,7 +626,6 @@ theorem C22_track_header_crash_iff (magic : Bytes) (versionOk : Nat → Bool) (d
             · rfl
             · rename_i hns
               have : 14 + leVal (slice data 6 8) ≤ data.length := by simpa using hns
-              simp only [bind_ok]
               rw [if_pos ⟨by omega, this⟩]; rfl
           · intro ⟨_, _, _, hov⟩; omega
         · rename_i hov
@@ -697,12 +696,12 @@ theorem maxEnd_lt {acc off len : Nat} (h : acc < 2^64) : maxEnd acc off len < 2^
 theorem foldl_maxEnd_frames_lt : ∀ (fs : List FrameV) (acc : Nat), acc < 2^64 →
     fs.foldl (fun acc f => maxEnd acc f.off f.len) acc < 2^64
   | [], _, h => h
-  | f :: fs, acc, h => foldl_maxEnd_frames_lt fs _ (maxEnd_lt h)
+  | _ :: fs, _, h => foldl_maxEnd_frames_lt fs _ (maxEnd_lt h)
 
 theorem foldl_maxEnd_spans_lt : ∀ (ss : List Span) (acc : Nat), acc < 2^64 →
     ss.foldl (fun acc s => maxEnd acc s.off s.len) acc < 2^64
   | [], _, h => h
-  | s :: ss, acc, h => foldl_maxEnd_spans_lt ss _ (maxEnd_lt h)
+  | _ :: ss, _, h => foldl_maxEnd_spans_lt ss _ (maxEnd_lt h)
 
 /-- **C22_total_data_end** — `compute_data_end` and `compute_payload_region_end` use only
     saturating / checked additions: the result is a `u64` for any TOC and header. -/
@@ -770,7 +769,7 @@ theorem C22_blob_seek_crash_iff (checked : Bool) (start len target : Nat) :
         · intro ⟨_, _, h⟩; omega
       · simp only [bind_panic]
         constructor
-        · intro _; exact ⟨rfl, by omega, by omega⟩
+        · intro _; exact ⟨by simp, by omega, by omega⟩
         · intro _; exact not_safe_panic _
     · simp only [if_true]
       constructor
@@ -779,5 +778,130 @@ theorem C22_blob_seek_crash_iff (checked : Bool) (start len target : Nat) :
         · rfl
         · split <;> rfl
       · intro ⟨h, _⟩; cases h
+
+/-! ### repaired shapes as consequences of the source-derived flags -/
+
+theorem timeIndexRead_safe_of_cap (allocOk : Nat → Bool) (c : Nat) (hcap : TimeIndex.PREALLOC_CAP = some c)
+    (hc : c * 16 ≤ 2^63 - 1) (hmem : ∀ n, n ≤ c * 16 → allocOk n = true) (file : Bytes) (offset length : Nat) :
+    (timeIndexRead allocOk file offset length).Safe := by
+  apply Classical.byContradiction
+  intro hcr
+  obtain ⟨_, count, _, hor⟩ := (C22_time_index_crash_iff allocOk file offset length).mp hcr
+  have hreq : TimeIndex.preallocRequest count ≤ c := by
+    unfold TimeIndex.preallocRequest; rw [hcap]; exact Nat.min_le_right _ _
+  rcases hor with hp | ha
+  · unfold TimeIndex.preallocPanics at hp
+    have : TimeIndex.preallocRequest count * 16 > 2^63 - 1 := by simpa using hp
+    omega
+  · rw [hmem _ (by omega)] at ha; cases ha
+
+theorem plannerCompute_safe (h : Gen.C22.DOCTOR_ASSERTS_NO_PENDING = false) (n : Nat) : (plannerCompute n).Safe := by
+  apply Classical.byContradiction
+  intro hc
+  unfold plannerCompute at hc
+  have := (C22_planner_crash_iff _ _).mp hc
+  rw [h] at this; exact absurd this.1 (by decide)
+
+theorem blobSeek_safe (h : Gen.C22.BLOB_CHECKED = true) (start len target : Nat) : (blobSeek start len target).Safe := by
+  apply Classical.byContradiction
+  intro hc
+  unfold blobSeek at hc
+  have := (C22_blob_seek_crash_iff _ _ _ _).mp hc
+  rw [h] at this; exact absurd this.1 (by decide)
+
+theorem memoriesHeader_safe (h : Gen.C22.MEMORIES_LEN_CHECKED = true) (data : Bytes) (hl : data.length < 2^64) :
+    (memoriesHeader data).Safe := by
+  unfold memoriesHeader; rw [h]; exact C22_total_track_header _ _ _ hl
+
+theorem meshHeader_safe (h : Gen.C22.MESH_LEN_CHECKED = true) (data : Bytes) (hl : data.length < 2^64) :
+    (meshHeader data).Safe := by
+  unfold meshHeader; rw [h]; exact C22_total_track_header _ _ _ hl
+
+/-! ### composition -/
+
+theorem readToc_safe (H : Bytes → Bytes) (dec : Bytes → BB TocV) (hdec : NoPanic dec) (file : Bytes) (fo : Nat) :
+    (readToc H dec file fo).Safe := by
+  apply Classical.byContradiction
+  intro hc
+  obtain ⟨b, hb⟩ := readToc_crash hc
+  exact hdec b hb
+
+theorem optRun_safe {α : Type} (o : Option Span) (f : Span → Out α) (hf : ∀ s, (f s).Safe) : (optRun o f).Safe := by
+  unfold optRun
+  split
+  · exact Safe_bind (hf _) fun _ _ => rfl
+  · rfl
+
+theorem headerRead_range {file : Bytes} {h : Header.Header} (hd : headerRead file = .ok h) :
+    h.footerOffset < 2^64 ∧ h.walOffset < 2^64 ∧ h.walSize < 2^64 ∧ h.walSequence < 2^64 ∧ h.walSize ≠ 0 := by
+  unfold headerRead at hd
+  simp only [bind_eq] at hd
+  obtain ⟨_, _, hd⟩ := bind_eq_ok hd
+  exact headerDecode_range hd
+
+/-- **C22_compose** — the composition `open_locked` runs (header → `read_toc` | `recover_toc` → frame
+    table check → WAL open → generation → data end → track loaders up to their black boxes): with
+    the repaired shapes (premises `hs hm hl`, discharged from the source in C22Repaired) and a file
+    shorter than `2^63` bytes, it returns a handle or an error unless `Toc::decode` itself panics at
+    one of its two unwrapped call sites. -/
+theorem C22_compose (H : Bytes → Bytes) (dec : Bytes → BB TocV) (hdec : NoPanic dec) (file : Bytes)
+    (hlen : file.length < 2^63)
+    (hs : Gen.C39.READER_CHECKED_ARITH = true) (hm : Gen.C22.MEMORIES_LEN_CHECKED = true)
+    (hl : Gen.C22.MESH_LEN_CHECKED = true) : (openLocked H dec file).Safe := by
+  unfold openLocked
+  simp only [bind_eq]
+  refine Safe_bind (C22_total_header file) fun hdr hh => ?_
+  obtain ⟨_, hwo, hws, _, _⟩ := headerRead_range hh
+  refine Safe_bind ?_ fun r _ => ?_
+  · have hrt := readToc_safe H dec hdec file hdr.footerOffset
+    unfold tocOrRecover
+    cases hr : readToc H dec file hdr.footerOffset with
+    | ok t => rfl
+    | err e => exact C22_total_recover_toc H dec hdec file _
+    | panic w => rw [hr] at hrt; exact absurd hrt (not_safe_panic w)
+    | abort w => rw [hr] at hrt; exact absurd hrt (not_safe_abort w)
+    | hang => rw [hr] at hrt; exact absurd hrt not_safe_hang
+  · obtain ⟨toc, fo⟩ := r
+    simp only
+    refine Safe_bind (C22_total_frames _ _) fun _ _ => ?_
+    refine Safe_bind (C22_total_wal_open H file _ _ _ false hlen hwo hws) fun _ _ => ?_
+    refine Safe_bind (locateWindow_safe H file hlen) fun _ _ => ?_
+    refine Safe_bind (optRun_safe _ _ fun s => loadTrack_safe _ (memoriesHeader_safe hm) file s) fun _ _ => ?_
+    refine Safe_bind (optRun_safe _ _ fun s => loadTrack_safe _ (meshHeader_safe hl) file s) fun _ _ => ?_
+    refine Safe_bind (optRun_safe _ _ fun s => sketchRead_safe hs file s.off s.len) fun _ _ => ?_
+    rfl
+
+/-- the same, read as "every crash of the composition is a black-box panic" -/
+theorem C22_compose_crash (H : Bytes → Bytes) (dec : Bytes → BB TocV) (file : Bytes) (hlen : file.length < 2^63)
+    (hs : Gen.C39.READER_CHECKED_ARITH = true) (hm : Gen.C22.MEMORIES_LEN_CHECKED = true)
+    (hl : Gen.C22.MESH_LEN_CHECKED = true) (hc : ¬ (openLocked H dec file).Safe) : ∃ b, dec b = .panicked := by
+  apply Classical.byContradiction
+  intro hne
+  exact hc (C22_compose H dec (fun b hb => hne ⟨b, hb⟩) file hlen hs hm hl)
+
+/-! ### non-vacuity: concrete instances -/
+
+example : NoPanic (fun _ : Bytes => (BB.err : BB TocV)) := fun _ h => by cases h
+example : headerRead [1, 2, 3] = .err "io" := by decide
+example : verifyTocPrefix (zeros 24) = .ok () := by decide
+example : verifyTocPrefix (u64le 0 ++ u64le 1 ++ u64le 0) = .err "inconsistent" := by decide
+/-- a 24-byte TOC followed by its footer is handed to `Toc::decode` -/
+example : readTocBytes (fun _ => zeros 32) (zeros 24 ++ Footer.encode ⟨24, zeros 32, 7⟩) 0 = .ok (zeros 24) := by decide
+example : readTocBytes (fun _ => zeros 32) (zeros 24 ++ Footer.encode ⟨24, zeros 32, 7⟩) 81 = .err "footer_beyond_file" := by decide
+example : walScan (fun _ => zeros 32) (zeros 100) 4 96 = .ok ([], 0) := by decide
+example : walScan (fun _ => zeros 32) (zeros 10) 4 96 = .err "io" := by decide
+example : (walScan (fun _ => zeros 32) (zeros 10) (2^64 - 1) (2^64 - 1)).Safe := by decide
+example : trackHeader Gen.C22.MEMORIES_MAGIC (fun v => v == 1) true
+    (Gen.C22.MEMORIES_MAGIC ++ [1, 0] ++ u64le 2 ++ [9, 8]) = .ok [9, 8] := by decide
+example : trackHeader Gen.C22.MEMORIES_MAGIC (fun v => v == 1) true
+    (Gen.C22.MEMORIES_MAGIC ++ [1, 0] ++ List.replicate 8 255) = .err "truncated" := by decide
+example : plannerComputeWith true 1 = .panic "debug_assert-wal_pending" := by decide
+example : plannerComputeWith false 1 = .ok true := by decide
+example : blobSeekWith false (2^63 - 1) (2^64 - 1) (2^63 + 1) = .panic "add-overflow" := by decide
+example : blobSeekWith true (2^63 - 1) (2^64 - 1) (2^63 + 1) = .err "overflow" := by decide
+example : timelineSelect [5, 1, 2^64 - 1, 0] (some 3) 2 = .ok [1] := by decide
+example : ensureNonOverlapping [⟨100, 10, true⟩, ⟨105, 10, true⟩] 1000 = .err "overlap" := by decide
+example : ensureNonOverlapping [⟨2^64 - 1, 10, true⟩] 1000 = .err "overflow" := by decide
+example : ensureNonOverlapping [⟨2^64 - 1, 10, false⟩, ⟨200, 5, true⟩, ⟨100, 10, true⟩] 1000 = .ok () := by decide
 
 end Mv.Dec
